@@ -179,6 +179,27 @@ pub fn seeded() -> Vec<(LinearModel, &'static str)> {
     m.add_constraint(vec![1.0, 0.0], Comparison::GreaterOrEqual, 2.0);
     m.set_objective(vec![0.0, 1.0], OptimizationType::Min);
     v.push((m, "seeded-primal-dual-infeasible"));
+    // clarabel: `Solved` with a ~1e25 point on a primal-and-dual infeasible model (thorough tier)
+    let mut m = LinearModel::new();
+    m.add_variable("v0", free()); m.add_variable("v1", free()); m.add_variable("v2", free());
+    m.add_constraint(vec![-3.0, 1.0, 0.0], Comparison::LessOrEqual, 3.0);
+    m.add_constraint(vec![-3.0, 1.0, 0.0], Comparison::GreaterOrEqual, 4.0);
+    m.set_objective(vec![2.0, -3.0, -1.0], OptimizationType::Min);
+    v.push((m, "seeded-clarabel-solved-infeasible"));
+    // microlp: unbounded mixed model (free variable) answered with InternalError("bounded B&B node reported unbounded")
+    let mut m = LinearModel::new();
+    m.add_variable("v0", free()); m.add_variable("v1", VariableType::IntegerRange(0, 3));
+    m.add_variable("v2", VariableType::IntegerRange(1, 3)); m.add_variable("v3", VariableType::IntegerRange(-1, 1));
+    m.add_constraint(vec![0.0, 0.0, 3.0, -3.0], Comparison::GreaterOrEqual, 7.0);
+    m.set_objective(vec![-1.0, -3.0, 1.0, 0.0], OptimizationType::Min);
+    v.push((m, "seeded-microlp-node-unbounded"));
+    // the same mechanism with the free variable inside a row
+    let mut m = LinearModel::new();
+    m.add_variable("v0", free()); m.add_variable("w", free()); m.add_variable("k", VariableType::IntegerRange(0, 3));
+    m.add_constraint(vec![1.0, -1.0, 0.0], Comparison::Equal, 0.0);
+    m.add_constraint(vec![0.0, 0.0, 2.0], Comparison::GreaterOrEqual, 3.0);
+    m.set_objective(vec![-1.0, 0.0, 1.0], OptimizationType::Min);
+    v.push((m, "seeded-microlp-node-unbounded"));
     // clarabel: `Solved` on an unbounded model with a moderate point and diverging duals (found on main, seed 1)
     let mut m = LinearModel::new();
     m.add_variable("v0", free()); m.add_variable("v1", VariableType::NonNegativeReal(1.0, 2.0));
